@@ -1,4 +1,4 @@
-from sqlparse.sql import Function, Token
+from sqlparse.sql import Function, IdentifierList, Parenthesis, Token
 
 from sqllineage.core.holders import SubQueryLineageHolder
 from sqllineage.core.parser.sqlparse.handlers.base import CurrentTokenBaseHandler
@@ -16,9 +16,19 @@ class SwapPartitionHandler(CurrentTokenBaseHandler):
             isinstance(token, Function)
             and token.get_name().lower() == "swap_partitions_between_tables"
         ):
-            _, parenthesis = token.tokens
-            _, identifier_list, _ = parenthesis.tokens
-            identifiers = list(identifier_list.get_identifiers())
+            identifier_lists = [
+                t
+                for parenthesis in token.tokens
+                if isinstance(parenthesis, Parenthesis)
+                for t in parenthesis.tokens
+                if isinstance(t, IdentifierList)
+            ]
+            identifiers = (
+                list(identifier_lists[0].get_identifiers()) if identifier_lists else []
+            )
+            if len(identifiers) < 4:
+                # not the 4-argument call form, no lineage
+                return
             holder.add_read(
                 SqlParseTable(escape_identifier_name(identifiers[0].normalized))
             )
